@@ -7,7 +7,7 @@ from lib.common import *
 ID = "C12"
 COQ_TARGETS = ["Run/Run_FD.vo"]
 META = {
-    "text": "Theorems (Properties/C12.v) over the Gallina model FD/FD.v of pkg/gossip/failuredetector.go (circular interval buffer, "
+    "text": "C12_silent_eventually_unreachable (Compose/LiveFD.v): in place - asked by the cluster state's UpdateLiveness - every evaluation made late enough finds a silent peer unreachable (and C11_silent_stays_unreachable keeps it so until heard). Theorems (Properties/C12.v) over the Gallina model FD/FD.v of pkg/gossip/failuredetector.go (circular interval buffer, "
             "arrivalWindow, accrualFailureDetector, as written): for every window size n>=1 and every arrival sequence of any length the "
             "buffer holds exactly the last min(len,n) elements of bootstrap::differences with their sum and count (C12_window, past any "
             "number of wrap-arounds); the level is 0 at an arrival (C12_zero_at_arrival) and equals (t-last)*size/sum, linear in the "
